@@ -158,7 +158,7 @@ func (m *model) ruleAdmissionDispatch(s *report.Sink) {
 	chPhi, _ := st.Chan.(*ssa.Phi)
 	chEx, _ := st.Chan.(*ssa.Extract)
 	switch {
-	case chPhi != nil && chPhi.Block() == m.sel.Block():
+	case chPhi != nil && m.loopBlocks[chPhi.Block()] && chPhi.Block() != m.header && chPhi.Block().Dominates(m.sel.Block()):
 		for k, e := range chPhi.Edges {
 			v := st.Send
 			if vp, ok := st.Send.(*ssa.Phi); ok && vp.Block() == chPhi.Block() {
@@ -799,6 +799,9 @@ func (m *model) versions(phi *ssa.Phi) map[ssa.Value]bool {
 // the next iteration from block b: on every back edge reachable from b
 // (without leaving the loop), the phi operand is v.
 func (m *model) current(phi *ssa.Phi, v ssa.Value, b *ssa.BasicBlock) bool {
+	if phi == nil || phi.Block() != m.header {
+		return false
+	}
 	found := false
 	ok := true
 	seen := map[*ssa.BasicBlock]bool{b: true}
@@ -1022,7 +1025,7 @@ func (m *model) ruleLoopExits(s *report.Sink) {
 	s.Check(m.isField(m.armDone.state.Chan, m.fDONE), "S19", "loop|result arm reads s.donec directly", m.ipos(m.sel), "the result arm can never be disabled", "result arm receives from a value that is not the scheduler's result channel itself (could be nil): results would be ignored and workers block")
 	good19 := false
 	if enqPhi != nil && enqPhi.Block() == m.header {
-		good19 = true
+		good19 = m.enqDirect // receiving from a further-gated copy disables the arm for reasons other than close
 		closedEntry := (*ssa.BasicBlock)(nil)
 		if okIf != nil {
 			closedEntry = okIf.Block().Succs[1]
